@@ -340,8 +340,15 @@ impl Core {
 
         // Seed the query either with the closest nodes from the routing table, or the
         // bootstrapping nodes if the closest nodes are not enough.
+        //
+        // An empty routing table means we are bootstrapping: candidates that only come from the
+        // signed peers routing table (nodes that contacted us, and may never answer) must not
+        // keep us from asking the bootstrapping nodes.
         let candidates = query.closest();
-        if candidates.is_empty() || candidates.len() < self.bootstrap.len() {
+        if candidates.is_empty()
+            || candidates.len() < self.bootstrap.len()
+            || self.routing_table.is_empty()
+        {
             for bootstrapping_node in self.bootstrap.clone() {
                 to_visit.push(bootstrapping_node)
             }
